@@ -98,6 +98,8 @@ structure DrainHist where
   ops : List (POp × List String × Int) := []
 
 structure St where
+  /-- how often the run's adversary acted (`byz=` of the `end` line); 0 = no Byzantine message was ever sent -/
+  byzActs : Nat := 1
   tbl : Table := { entries := [] }
   cfg : Cfg := default
   models : List (Pid × PState) := []
@@ -516,8 +518,8 @@ def endRunOne (st : St) (gst delta : Int) (now : Int) (capped : Bool) (gstRound 
           match stallDiagnosis st honest with
           | some d => .oracle s!"C06-stalled-quorum-needs-member-with-incompatible-input run={st.runNo} mode={st.mode} decided={decs.length}/{honest.length} {d}"
           | none => .oracle s!"C06-undecided-after-stabilisation run={st.runNo} mode={st.mode} decided={decs.length}/{honest.length} gst={gst} now={now} delta={delta}"
-        else if live && !capped && decRound > max gstRound 0 + 40 then
-          .oracle s!"C06-round-bound-exceeded run={st.runNo} mode={st.mode} decided in round {decRound}, stabilised in round {gstRound}"
+        else if live && !capped && decRound > max gstRound 0 + (if st.byzActs == 0 then 6 else 40) then
+          .oracle s!"C06-round-bound-exceeded run={st.runNo} mode={st.mode} decided in round {decRound}, stabilised in round {gstRound}, bound +{if st.byzActs == 0 then 6 else 40} (adversary acted {st.byzActs} times)"
         else if st.mode == "sync" && !capped &&
             !(decs.all (fun d => honest.all (fun h => h.2.input == d.2.value))) then
           .oracle s!"C02-unanimous-synchronous-run-decided-another-chain run={st.runNo}"
@@ -672,7 +674,8 @@ def step (st : St) (line : String) : St × Verdict :=
   | "end" :: _ :: rest =>
     match (getKV rest "gst").bind (·.toInt?), (getKV rest "delta").bind (·.toInt?), (getKV rest "now").bind (·.toInt?),
           (getKV rest "capped").bind (·.toNat?), (getKV rest "gstround").bind (·.toInt?), (getKV rest "decround").bind (·.toInt?) with
-    | some g, some d, some n, some c, some gr, some dr => (st, endRun st g d n (c == 1) gr dr)
+    | some g, some d, some n, some c, some gr, some dr =>
+      (st, endRun { st with byzActs := ((getKV rest "byz").bind (·.toNat?)).getD 1 } g d n (c == 1) gr dr)
     | _, _, _, _, _, _ => (st, .bad "end")
   | _ => (st, .bad "unknown line")
 
